@@ -4,6 +4,7 @@ package main
 import (
 	"verif/sim/kernel"
 	"verif/sim/props/c04"
+	"verif/sim/props/c05"
 	"verif/sim/props/c06"
 	"verif/sim/props/c07"
 	"verif/sim/props/c17"
@@ -13,6 +14,7 @@ import (
 func main() {
 	kernel.Main(map[string]kernel.Property{
 		"C04": c04.Prop{},
+		"C05": c05.Prop{},
 		"C06": c06.Prop{},
 		"C07": c07.Prop{},
 		"C15": cmdsim.C15{},
